@@ -73,6 +73,8 @@ class Norm:
                 l, r = sorted([l, r])
             if op == "<<" and r.isdigit() and not l.isdigit():
                 return "(%s*%d)" % (l, 1 << int(r))
+            if op in ("<", "<="):
+                l, r, op = r, l, {"<": ">", "<=": ">="}[op]   # one orientation for ordering comparisons
             if op == ">" and r == "0":
                 return l  # unsigned truthiness
             return "(%s%s%s)" % (l, op, r)
